@@ -45,6 +45,7 @@ inductive Kern (α : Type) where
   | wsum (weights : List α) (weightsum : α) (bases : List (Kern α))  -- WeightedSumKernel (m_base[i].weight, m_weightsum)
   | prod (bases : List (Kern α))                      -- ProductKernel
   | subrange (start stop : Nat) (base : Kern α)       -- detail::SubrangeKernelWrapper
+  | mapped (A : List (List α)) (b : List α) (base : Kern α)   -- ModelKernel over a LinearModel x ↦ A x + b
   deriving Repr, Inhabited
 
 section
@@ -72,6 +73,10 @@ def powNat (x : α) : Nat → α
 
 /-- `blas::subrange(x, start, stop)` / `columns(batch, start, stop)` -/
 def slice (start stop : Nat) (x : List α) : List α := (x.drop start).take (stop - start)
+
+/-- `LinearModel::eval`: `x ↦ A x + b` (row `r` of the output is `⟨x, A_r⟩ + b_r`) -/
+def affine (A : List (List α)) (b : List α) (x : List α) : List α :=
+  List.zipWith (fun row br => dot x row + br) A b
 
 /-- the literal `2.0` -/
 def two : α := 1 + 1
@@ -101,6 +106,7 @@ def Kern.eval : Kern α → Point α → Point α → α
   | .wsum ws s ks, x, z => wfold ws (evalList ks x z) 0 / s
   | .prod ks, x, z => pfold (evalList ks x z) 1
   | .subrange a b k, x, z => k.eval (slice a b x) (slice a b z)
+  | .mapped A b k, x, z => k.eval (affine A b x) (affine A b z)
 def evalList : List (Kern α) → Point α → Point α → List α
   | [], _, _ => []
   | k :: ks, x, z => k.eval x z :: evalList ks x z
@@ -153,6 +159,7 @@ def Kern.evalBlock : Kern α → Mat α → Mat α → Mat α
       | [] => constMat X1 X2 1          -- "an empty product is a normalized kernel" (C++: UB, see findings)
       | K :: Ks => pfoldMat Ks K
   | .subrange a b k, X1, X2 => k.evalBlock (X1.map (slice a b)) (X2.map (slice a b))
+  | .mapped A b k, X1, X2 => k.evalBlock (X1.map (affine A b)) (X2.map (affine A b))
 def evalBlockList : List (Kern α) → Mat α → Mat α → List (Mat α)
   | [], _, _ => []
   | k :: ks, X1, X2 => k.evalBlock X1 X2 :: evalBlockList ks X1 X2
@@ -189,6 +196,7 @@ def Kern.evalBlockS : Kern α → Mat α → Mat α → Mat α
       | [] => constMat X1 X2 1
       | K :: Ks => pfoldMat Ks K
   | .subrange a b k, X1, X2 => k.evalBlockS (X1.map (slice a b)) (X2.map (slice a b))
+  | .mapped A b k, X1, X2 => k.evalBlockS (X1.map (affine A b)) (X2.map (affine A b))
 def evalBlockSList : List (Kern α) → Mat α → Mat α → List (Mat α)
   | [], _, _ => []
   | k :: ks, X1, X2 => k.evalBlockS X1 X2 :: evalBlockSList ks X1 X2
@@ -227,6 +235,33 @@ def Kern.featureDistanceSqr (k : Kern α) (x z : Point α) : α :=
 def wsumOfParams (ps : List α) (ks : List (Kern α)) : Kern α :=
   .wsum (1 :: ps.map exp) (ps.foldl (fun s p => s + exp p) 1) ks
 
+end
+
+/-! ### SubrangeKernel and PointSetKernel -/
+section
+variable {α : Type} [Add α] [Sub α] [Mul α] [Div α] [Neg α] [OfNat α 0] [OfNat α 1]
+variable (exp sqrt : α → α)
+
+/-- `SubrangeKernel(kernels, ranges)` + `setParameterVector(ps)`: a `WeightedSumKernel` over
+`SubrangeKernelWrapper(kernel_i, start_i, end_i)` -/
+def subrangeKernel (ps : List α) (terms : List (Nat × Nat × Kern α)) : Kern α :=
+  wsumOfParams exp ps (terms.map fun t => .subrange t.1 t.2.1 t.2.2)
+
+/-- `sum(response)`: row sums, then their sum -/
+def matSum (M : Mat α) : α := (M.map fun row => row.foldl (· + ·) 0).foldl (· + ·) 0
+
+/-- `(double)n` -/
+def natS : Nat → α
+  | 0 => 0
+  | n + 1 => natS n + 1
+
+/-- `PointSetKernel::eval(X, Z)`: the mean of the base kernel's block over two point sets -/
+def pointSetEval (k : Kern α) (X Z : Mat α) : α :=
+  matSum (k.evalBlock exp sqrt X Z) / natS (X.length * Z.length)
+
+/-- `PointSetKernel::eval(batchX1, batchX2, result)`: an explicit double loop over the sets -/
+def pointSetBlock (k : Kern α) (B1 B2 : List (Mat α)) : Mat α :=
+  B1.map fun X => B2.map fun Z => pointSetEval exp sqrt k X Z
 end
 
 /-! ### DiscreteKernel (inputs are indices into a table) -/
